@@ -8,7 +8,7 @@ SPEC = {
                  'C22_admitted_implies_acceptable_refuted', 'C22_refuted_forward', 'C22_refuted_wrapper',
                  'C22_refuted_negfee', 'C22_refuted_hdrempty', 'C22_guards_satisfiable'],
     'allowed_axioms': [],
-    'shard': 8,
+    'shard': 20,
     'check_preamble': 'From C33 Require Import C22.Model.\nOpen Scope Z_scope.\n',
     'rule': 'one case = one history of EventTx messages (6-14 quick, 6-24 thorough; the clause matrix up to ~50) sent through the '
             'message queue to one real Mempool (SimpleQueue, its own eventProcess/pipeline goroutines) whose neighbour modules '
@@ -37,8 +37,8 @@ SPEC = {
         'using each recipient string with one fixed validity',
         'parachain title rules inside Transactions.CheckWithFork (ErrTxGroupParaCount / ParaMainMixed) are not modelled; '
         'generated groups use one execer',
-        'blacklist dimensions exercised: sender and recipient (GetRealToAddr / evm payload targets fold into the same '
-        'boolean fact and are not generated)',
+        'blacklist dimensions exercised: sender, recipient, evm payload ContractAddr and 20-byte Para (plus a non-listed evm '
+        'payload as control); the GetRealToAddr dimension is not generated (ExecTypeBase.cfg is process-global state)',
     ],
     'assumptions': [
         'cfg_ok: MinTxFeeRate >= 0 and MaxTxFeeRate >= 0',
